@@ -21,12 +21,32 @@ def gen_scenarios(rnd: random.Random, count, max_items=5):
         # (with its remote traceback attached) - instead of still wrapped; `hook`: the worker has a (strict) preprocess hook
         # even if it rejects nothing
         out.append({'b': b, 'w': w, 'arr': arr, 'nw': rnd.choice([1, 1, 2]), 'bare': rnd.random() < 0.5,
-                    'hook': rnd.random() < 0.5})
+                    'hook': rnd.random() < 0.5, 'slow': [], 'dur': 0})
+    return out
+
+
+def flood_scenarios(rnd: random.Random, count):
+    """More requests than the batch buffers hold (batch_size + 10 each) while the workers' first calls are slow: the
+    collectors fill their buffers and have to wait for room - WITHOUT holding the input queue's read lock, so that a worker
+    with room (or the same worker, later) serves what is still on the input queue."""
+    out = []
+    for _ in range(count):
+        b = rnd.choice([2, 2, 3])
+        nw = rnd.choice([1, 1, 2])
+        w = rnd.choice([0, 1, 2])
+        n = nw * (2 * b + 10) + rnd.choice([1, 3, 5])
+        arr = [{'gap': rnd.choice([0, 0, 0, 0, 1]), 'kind': 'ok'} for _ in range(n)]
+        for k in rnd.sample(range(2 * b, n), rnd.choice([0, 0, 1])):
+            arr[k]['kind'] = rnd.choice(['exc', 'pre'])
+        tail = rnd.choice([0, 0, 1, 2])       # lone late requests after the flood
+        arr += [{'gap': rnd.choice([3, 6]), 'kind': 'ok'} for _ in range(tail)]
+        out.append({'b': b, 'w': w, 'arr': arr, 'nw': nw, 'bare': False, 'hook': rnd.random() < 0.3,
+                    'slow': list(range(1, (b * nw if rnd.random() < 0.8 else 1) + 1)), 'dur': rnd.choice([4, 8, 12])})
     return out
 
 
 def header(sc):
-    return {'b': sc['b'], 'w': sc['w'], 'arr': sc['arr']}
+    return {'b': sc['b'], 'w': sc['w'], 'arr': sc['arr'], 'slow': list(sc.get('slow') or []), 'dur': int(sc.get('dur') or 0)}
 
 
 _installed = False
@@ -125,6 +145,7 @@ def _make_scenario(sc):
 
     b, w, arr, nw = sc['b'], sc['w'], sc['arr'], sc['nw']
     kinds = {i + 1: a['kind'] for i, a in enumerate(arr)}
+    slow, dur = set(sc.get('slow') or []), int(sc.get('dur') or 0)
     has_pre = any(a['kind'] == 'pre' for a in arr)
 
     class W(Worker):
@@ -133,6 +154,8 @@ def _make_scenario(sc):
             ids = [x] if bare else list(x)
             ok = all(isinstance(v, int) for v in ids)
             detsched.emit('Call', w=self.worker_index + 1, ids=ids if ok else [-1], t=_ticks(), bare=bare)
+            if dur and slow.intersection(v for v in ids if isinstance(v, int)):
+                time.sleep(dur * U)       # a slow call (virtual time)
             return x
 
     if has_pre or sc.get('hook'):
@@ -221,13 +244,58 @@ def _make_scenario(sc):
     return root
 
 
+def _adversary(seed):
+    """The schedule of the model's counterexample to the as-found design (RoomCheckUnderLock = FALSE; sensitivity run of the
+    check): the collectors run ahead of the consumers until a collector stands at `with buffer._not_full:` next to a FULL
+    buffer; from then on that collector runs only when nothing else can - the consumer meanwhile empties the buffer.  A
+    collector that now waits for room (without looking again) waits for ever.  Thread priorities only: a legal schedule."""
+    import inspect
+    import random
+    import sys
+    from mbt import detsched
+    from mpservice.mpserver import _worker
+    src, first = inspect.getsourcelines(_worker.Worker._build_input_batches)
+    wait_line = next((first + k for k, ln in enumerate(src) if 'with buffer._not_full' in ln), None)
+
+    class Adversary(detsched.Strategy):
+        def __init__(self):
+            self.rnd = random.Random(seed)
+            self.victims = set()      # collectors caught at the critical point
+
+        def at_wait_line(self, ts):
+            f = sys._current_frames().get(ts.ident)
+            while f is not None:
+                if f.f_code.co_name == '_build_input_batches':
+                    buf = f.f_locals.get('buffer')
+                    return f.f_lineno == wait_line and buf is not None and buf.full()
+                f = f.f_back
+            return False
+
+        def pick(self, sched, runnable, current):
+            for t in runnable:
+                if '_build_input_batches' in t.name and t.tid not in self.victims and self.at_wait_line(t):
+                    self.victims.add(t.tid)
+            pool = [t for t in runnable if t.tid not in self.victims]
+            if not self.victims:
+                # fill phase: consumers (the workers' main threads) only when nothing else can run
+                pool = [t for t in pool if not re.fullmatch(r'bw-\d+', t.name)] or pool
+            pool = pool or runnable
+            if current in pool and self.rnd.random() < 0.6:
+                return current
+            return pool[self.rnd.randrange(len(pool))]
+
+    return Adversary()
+
+
 def run_job(job):
     from mbt import detsched
     _install()
     traces, hangs, n_exec = [], [], 0
     for item in job['items']:
         sc, seed, strat = item['sc'], item['seed'], item.get('strategy', 'random')
-        if strat == 'pct':
+        if strat == 'adversary':
+            st = _adversary(seed)
+        elif strat == 'pct':
             st = detsched.PCTStrategy(seed, depth=3 + seed % 4, est_steps=1500)
         else:
             st = detsched.RandomStrategy(seed, stay=0.3 + 0.6 * ((seed * 7919) % 10) / 10.0)
